@@ -78,9 +78,12 @@ claim('C07',
       COMMON_NOTE + 'Host stack depth and wall-clock time are sampled only.',
       'Coq proof (stage-by-stage invariants => no Panic, all inputs) + differential fuzzing with panic/abort/hang detection', 'DESIGN.md §5 C07')
 claim('C08',
-      'Coq theorems: single-step lexical facts of the tokenizer model. The full statement tokenize = maximal-munch specification is decided '
-      'per input: crate tokens (hook) = independent lexical specification = model on generated, soup and mutated texts.',
-      COMMON_NOTE, 'Coq proof (tokenizer step lemmas) + three-way differential with executable lexical specification', 'DESIGN.md §5 C08')
+      'Coq theorem, for EVERY string: tokenize src = spec (S |src|) 0 src (Lex/Spec.v), where spec is the documented lexical rules written as '
+      'a maximal-munch scanner that reads one lexeme at a time and shares nothing with the tokenizer\'s character-driven state machine; the '
+      'equality includes error values and every byte position (multi-byte characters, attributes with nested/mismatched brackets, `:::`, '
+      'reserved word after `$`, comment at end of file). The crate is tied to the model per input: crate tokens (hook) = independent Python '
+      'lexical specification = model, on generated, soup and mutated texts.',
+      COMMON_NOTE, 'Coq proof (simulation of the state machine by the scanner, run lemmas per token class) + three-way differential with executable lexical specification', 'DESIGN.md §5 C08')
 claim('C09',
       'Coq theorems, unconditional: the tables/rules/reduce shapes read from parser.rs and parser.kiki on every run pass the validator by '
       'vm_compute and equal the hand-written grammar of record; hence for every token sequence the front end never panics, accepts exactly '
@@ -122,9 +125,12 @@ claim('C15',
       COMMON_NOTE + 'SHA-256 collision resistance is assumed for the freshness conclusion.',
       'Coq proof (lines/strip_prefix lemmas; template shape by vm_compute) + differential', 'DESIGN.md §5 C15')
 claim('C16',
-      'Coq theorems: whitespace runs and comments between tokens leave the tokenizer state untouched. Invariance of the whole result is decided '
-      'per pair (source, random re-layout) on the crate, modulo hash line / position map.',
-      COMMON_NOTE, 'Coq proof (tokenizer skip lemmas) + metamorphic differential', 'DESIGN.md §5 C16')
+      'Coq theorems, through the lexical specification (tokenize = lex 0 on every string): a whitespace character or a whole `//` comment in front '
+      'of any text produces no token and only moves what follows; a comment running to the end of the file produces nothing; the same text further '
+      'to the right gives the same tokens and the same lexical error with every byte position moved by that distance. So a re-layout changes the '
+      'token list only in its positions. Not proved: that the later stages use positions only inside error values; invariance of the whole result '
+      'is decided per pair (source, random re-layout) on the crate, modulo hash line / position map.',
+      COMMON_NOTE, 'Coq proof (lexical specification; gap and shift theorems) + metamorphic differential', 'DESIGN.md §5 C16')
 claim('C17',
       'Coq theorems: for validated tables every non-error cell is demanded by an item and every demand/transition of an item is in the table; '
       'the same for the tables of every grammar the model of generate accepts, with the machine\'s own item sets as annotation (closed states, '
